@@ -420,6 +420,15 @@ func (w *ammWorld) policy() {
 		f := rng.Rate01()
 		tok := w.denoms[rng.Intn(len(w.denoms))]
 		sp := k.GetSwapFeeParams(w.ctx)
+		if len(sp.TokenParams) > 0 && rng.Chance(1, 3) {
+			// an update whose token list no longer names one of the tokens: that token pays the default rate again
+			i := rng.Intn(len(sp.TokenParams))
+			gone := sp.TokenParams[i].Asset
+			sp.TokenParams = append(append([]*clptypes.SwapFeeTokenParams{}, sp.TokenParams[:i]...), sp.TokenParams[i+1:]...)
+			k.SetSwapFeeParams(w.ctx, &sp)
+			w.cfg("nofeetoken " + gone)
+			return
+		}
 		found := false
 		for _, tp := range sp.TokenParams {
 			if tp.Asset == tok {
@@ -1081,6 +1090,46 @@ func init() {
 			w.opAdd(w.users[3], "cusdc", e18(1), e18(1)) // refreshed: inside the lock period at the epoch end
 			w.setHeight(15)
 			w.opEpoch()
+		}
+		// D17: per-token fee overrides set, changed and dropped again (the token then pays the default rate), the
+		// default raised above the dropped override; swaps selling the token on the single and the double route
+		{
+			w := newAmmWorld(rng, out, 3, -1)
+			w.fundAll()
+			w.opCreate(w.users[0], "ceth", e18(100000), e18(5000))
+			w.opCreate(w.users[0], "cusdc", e18(100000), e18(90000))
+			k := w.app.ClpKeeper
+			setFees := func(def int64, toks map[string]int64) {
+				sp := clptypes.SwapFeeParams{DefaultSwapFeeRate: sdk.NewDecWithPrec(def, 4)}
+				for _, t := range []string{"ceth", "cusdc", "rowan"} {
+					if r, ok := toks[t]; ok {
+						sp.TokenParams = append(sp.TokenParams, &clptypes.SwapFeeTokenParams{Asset: t, SwapFeeRate: sdk.NewDecWithPrec(r, 4)})
+					}
+				}
+				old := k.GetSwapFeeParams(w.ctx)
+				k.SetSwapFeeParams(w.ctx, &sp)
+				for _, tp := range old.TokenParams {
+					w.cfg("nofeetoken " + tp.Asset)
+				}
+				w.cfg("fee " + sp.DefaultSwapFeeRate.BigInt().String())
+				for _, tp := range sp.TokenParams {
+					w.cfg("feetoken " + tp.Asset + " " + tp.SwapFeeRate.BigInt().String())
+				}
+			}
+			swaps := func() {
+				w.opSwap(w.users[1], "ceth", "rowan", e18(100), big.NewInt(0))
+				w.opSwap(w.users[1], "ceth", "cusdc", e18(100), big.NewInt(0))
+				w.opSwap(w.users[1], "rowan", "ceth", e18(1000), big.NewInt(0))
+				w.opSwap(w.users[1], "cusdc", "ceth", e18(1000), big.NewInt(0))
+			}
+			setFees(30, map[string]int64{"ceth": 1, "rowan": 5})
+			swaps()
+			setFees(100, map[string]int64{"rowan": 5})
+			swaps()
+			setFees(100, map[string]int64{"cusdc": 200})
+			swaps()
+			setFees(50, nil)
+			swaps()
 		}
 		// D16: runs of store-adjacent providers inside the rewards lock period at an epoch (one pool: 5 providers,
 		// every pattern of who refreshed its record at block 30; two pools: the run crosses the pool boundary),
